@@ -174,3 +174,194 @@ def with_required(rng, v, p=0.1):
         out = [("$required" if rng.random() < p else with_required(rng, x, p)) for x in v]
         return out
     return v
+
+
+# ------------------------------------------------------------------ evaluation features (C06-C14, C19, C09)
+
+ENV = {"HOME": "/home/u", "NUM": "42", "BOOLISH": "true", "NULLISH": "null", "DIR": "$merge:a", "EMPTY": "", "SP": "a b"}
+ENCODES = ["base64", "sha256", "join", "join:,", "join:-", "prefix:p-", "flatten", "values", "tolist:=", "tolist::",
+           "flags", "flags:x", "base64:x", "prefix", "tolist", "nosuch", "values:x", "sha256:1", "join:a:b"]
+
+
+def map_paths(v, prefix=()):
+    """paths reachable through maps only (what a dotted reference can address)"""
+    if isinstance(v, dict):
+        for k, x in v.items():
+            if isinstance(k, str) and k and "." not in k and not k.startswith("$"):
+                yield prefix + (k,), x
+                yield from map_paths(x, prefix + (k,))
+
+
+def ref_forms(rng, path, kind):
+    """spellings of a same-document reference to `path` for directive `kind` ($merge/$replace)"""
+    dotted = ".".join(path)
+    r = rng.random()
+    if r < 0.35:
+        return ("map", {kind: dotted})
+    if r < 0.5:
+        return ("map", {kind: list(path)})
+    if r < 0.75:
+        return ("str", f"{kind}:{dotted}")
+    if r < 0.85:
+        return ("str", f"{kind}:[{', '.join(path)}]")
+    return ("listentry", {kind: dotted})
+
+
+def inject_ref(rng, doc):
+    """Insert one $merge/$replace reference at a random host position. Returns new doc."""
+    targets = list(map_paths(doc))
+    if not targets:
+        return doc
+    tpath, tval = rng.choice(targets)
+    if rng.random() < 0.1:
+        tpath = tpath[:-1] + ("nosuch",)  # dangling
+    kind = rng.choice(["$merge", "$replace"])
+    form, ref = ref_forms(rng, tpath, kind)
+    hosts = [p for p, x in paths(doc) if p and not (len(p) >= len(tpath) and tuple(p[:len(tpath)]) == tuple(tpath))]
+    if not hosts:
+        hosts = [("zz",)]
+        doc = dict(doc, zz=1) if isinstance(doc, dict) else doc
+    hpath = rng.choice(hosts)
+    try:
+        cur = get_at(doc, hpath)
+    except Exception:
+        return doc
+    if form == "map":
+        if isinstance(cur, dict) and kind == "$merge" and rng.random() < 0.6:
+            new = dict(cur)
+            new.update(ref)          # $merge with local content
+        else:
+            new = dict(ref)
+            if rng.random() < 0.2:
+                new[rng.choice(KEYS)] = scalar(rng)
+    elif form == "str":
+        new = ref
+    else:
+        if isinstance(cur, list):
+            new = list(cur)
+            new.insert(rng.randint(0, len(new)), ref)
+        else:
+            new = [ref] if rng.random() < 0.5 else dict(ref)
+    return set_at(doc, hpath, new)
+
+
+def inject_output(rng, doc):
+    cands = [p for p, x in paths(doc) if isinstance(x, (dict, list))]
+    if not cands:
+        return doc
+    p = rng.choice(cands)
+    cur = get_at(doc, p)
+    val = rng.choice([True, True, False, False, "x", 1])
+    if isinstance(cur, dict):
+        new = dict(cur)
+        new["$output"] = val
+    else:
+        new = list(cur)
+        ent = {"$output": val}
+        if rng.random() < 0.07:
+            ent["k"] = 1
+        new.insert(rng.randint(0, len(new)), ent)
+    return set_at(doc, p, new)
+
+
+def inject_repeat(rng, doc, top_ok=True):
+    r = rng.random()
+    count = rng.choice([0, 1, 2, 3, 2, 3, 5, -1, "x", 1.5, None, True])
+    if r < 0.35 and top_ok and isinstance(doc, dict):
+        new = dict(doc)
+        if rng.random() < 0.4:
+            names = rng.sample(["x", "y", "z"], rng.randint(1, 3))
+            new["$repeat"] = {n: rng.choice([1, 2, 3, 0, 2, "q"]) for n in names}
+            new["rv"] = "$\"" + "-".join("{$repeat:%s}" % n for n in names) + "\""
+        else:
+            new["$repeat"] = count
+            new["rv"] = rng.choice(["$repeat", "$\"i{$repeat}\"", "$\"{$repeat}\""])
+        return new
+    cands = [p for p, x in paths(doc) if isinstance(x, dict) and p]
+    if not cands:
+        return doc
+    p = rng.choice(cands)
+    cur = dict(get_at(doc, p))
+    cur["$repeat"] = count
+    cur[rng.choice(KEYS)] = rng.choice(["$repeat", "$\"n{$repeat}\"", 7])
+    doc2 = set_at(doc, p, cur)
+    # keys containing the index when the parent is a map
+    if isinstance(p[-1], str) and rng.random() < 0.6:
+        parent = dict(get_at(doc2, p[:-1]))
+        v = parent.pop(p[-1])
+        parent[rng.choice(["$\"k{$repeat}\"", "$\"{$repeat}\"", p[-1]])] = v
+        doc2 = set_at(doc2, p[:-1], parent)
+    return doc2
+
+
+def inject_encode(rng, doc):
+    cands = [p for p, x in paths(doc) if isinstance(x, (dict, list)) and p]
+    if not cands:
+        return doc
+    p = rng.choice(cands)
+    cur = get_at(doc, p)
+    spec = rng.choice(ENCODES)
+    if rng.random() < 0.3:
+        spec = [rng.choice(ENCODES) for _ in range(rng.randint(0, 3))]
+    if rng.random() < 0.05:
+        spec = rng.choice([1, None, {"a": 1}, True])
+    if isinstance(cur, dict):
+        if rng.random() < 0.5:
+            new = dict(cur)
+            new["$encode"] = spec
+        else:
+            new = {"$encode": spec, "$value": rng.choice([cur, scalar(rng), [scalar(rng), scalar(rng)], {"k": [1, 2], "e": "", "s": "v"}])}
+            if rng.random() < 0.05:
+                new["extra"] = 1
+    else:
+        new = list(cur) + [{"$encode": spec}]
+    return set_at(doc, p, new)
+
+
+def interp_string(rng, doc):
+    refs = [".".join(p) for p, x in map_paths(doc) if not isinstance(x, (dict, list))]
+    refs += ["$env:HOME", "$env:NUM", "$env:NOSUCH", "nosuch", "$repeat"]
+    lits = ["", "a", " ", "-", "}", ":", "x}y", "é", "{", "{ ", "a\nb", "$", "$$", "\""]
+    parts = []
+    for _ in range(rng.randint(0, 4)):
+        if rng.random() < 0.5:
+            parts.append(rng.choice(lits))
+        else:
+            parts.append("{" + rng.choice(refs) + "}")
+    return "$\"" + "".join(parts) + "\""
+
+
+def inject_interp(rng, doc):
+    cands = [p for p, x in paths(doc) if p and not isinstance(x, (dict, list))]
+    if not cands:
+        return doc
+    p = rng.choice(cands)
+    r = rng.random()
+    if r < 0.6:
+        new = interp_string(rng, doc)
+    elif r < 0.9:
+        new = rng.choice(["$env:HOME", "$env:NUM", "$env:BOOLISH", "$env:NOSUCH", "$env:DIR", "$env:EMPTY", "$env:"])
+    else:
+        new = rng.choice(["$repeat", "$\"", "$\"\"", "$\"{a}", "$env", "$FOO", "${X}", "$(cmd)"])
+    doc2 = set_at(doc, p, new)
+    if isinstance(p[-1], str) and rng.random() < 0.15:
+        parent = dict(get_at(doc2, p[:-1]))
+        v = parent.pop(p[-1])
+        parent[rng.choice(["$env:HOME", "$env:NOSUCH", interp_string(rng, doc)])] = v
+        doc2 = set_at(doc2, p[:-1], parent)
+    return doc2
+
+
+FEATURES = {"ref": inject_ref, "output": inject_output, "repeat": inject_repeat, "encode": inject_encode, "interp": inject_interp}
+
+
+def eval_doc(rng, weights, depth=3, nfeat=(0, 3)):
+    doc = map_tree(rng, depth=depth, nulls=(rng.random() < 0.3))
+    names = list(weights)
+    for _ in range(rng.randint(*nfeat)):
+        f = rng.choices(names, [weights[n] for n in names])[0]
+        try:
+            doc = FEATURES[f](rng, doc)
+        except Exception:
+            pass
+    return doc
